@@ -602,6 +602,10 @@ Definition spec_broadcast (a : attr) (es_raw : list Z) (ins : list (@sinput cbod
                   (map (@body cbody) (lib_roundtrip_sigs (si_m x) (si_sigs x))) (si_m x))
           (combine (seq 0 (length ins)) ins).
 
+(* the patches of one Q / C step are applied in the order listed (a later patch of the same signature wins) *)
+Definition apply_patches (patches : list (nat * nat * Z)) (ins : list (@sinput cbody)) : list (@sinput cbody) :=
+  fold_left (fun acc p => patch_ht p acc) patches ins.
+
 Definition run_probe (src : field -> attr) (st : cstate) (a : attr) (nout : nat) (es' kinds : list Z) : obs :=
   let es := cs_epochs st in
   let ins := cs_ins st in
@@ -626,11 +630,11 @@ Definition run_op (fixed : bool) (st : cstate) (o : op) : cstate * obs :=
     let (b, ins') := lib_tx_verify_run (c_svi es copy) copy in
     (st, ObsVerify b (map (@si_valid cbody) ins') (matrix_of es ins'))
   | ORoundHt patches =>
-    let copy := lib_roundtrip_tx c_carried fixed (fold_right patch_ht (cs_ins st) patches) in
+    let copy := lib_roundtrip_tx c_carried fixed (apply_patches patches (cs_ins st)) in
     let (b, ins') := lib_tx_verify_run (c_svi es copy) copy in
     (st, ObsVerify b (map (@si_valid cbody) ins') (matrix_of es ins'))
   | OCtor patches =>
-    let copy := map (lib_ctor_input c_carried) (fold_right patch_ht (cs_ins st) patches) in
+    let copy := map (lib_ctor_input c_carried) (apply_patches patches (cs_ins st)) in
     let (b, ins') := lib_tx_verify_run (c_svi es copy) copy in
     (st, ObsVerify b (map (@si_valid cbody) ins') (matrix_of es ins'))
   | OPlace i ht ks =>
